@@ -11,8 +11,8 @@ COMMON_NOTE = ("Trusted: Coq 8.16.1 kernel + vm_compute; hand-written Gallina mo
                "are modelled, not verified. ")
 
 P = {
- "C01": dict(tech="Coq proof (round-trip theorem over abstract HDF5 tree model) + correspondence + strict comparator oracle",
-             text="Theorem: reader inverts writer on the model store for every graph (nested induction), types equal fresh construction; model pinned to code by write/read correspondence on random graphs over all 17 primitives.",
+ "C01": dict(tech="Coq proof (file round-trip theorem over an abstract HDF5 tree model, nested induction) + write/read correspondence + strict comparator oracle",
+             text="Theorem c01_file_round_trip: for every node built by the constructors (graphs of any depth) that write accepts, read(write g) succeeds and is equivalent to g (kinds, fields, arrays of rank>=1 identical, edges equal, children recursively, types equal), under the stated round-trip domain; model pinned to code by write/read correspondence on random graphs over all 17 primitives.",
              note="h5py/libhdf5 behind store laws A1-A5 (validated by the run, not proved)", ref="6 C01"),
  "C02": dict(tech="Coq proof (array fields pass through to_dict/write/read/from_dict untouched) + byte-level oracle over dtype x layout x value classes",
              text="Theorem: no branch of NIR's own code converts an ndarray (identical dtype/shape/token); partial by nature: byte fidelity inside numpy/h5py/libhdf5 is assumption A1, exercised by the run.",
@@ -33,13 +33,13 @@ P = {
              text="Theorems: for every rank>=1 shape and valid (start,end) incl. negative indices the code's slicing logic yields the merged shape; element count preserved; constructor, inference and utility agree.",
              note="np.prod int64 wrap outside the claim", ref="6 C07"),
  "C08": dict(tech="Coq proof (inference invariant over the work-list schedule) + correspondence + independent forward shape oracle",
-             text="Theorem: on a consistently typed graph the inference loop restores the erased annotations on every scheduled node; model pinned by inference correspondence on random consistent graphs with all erasure subsets.",
+             text="Theorems c08_infer_restores / c08_infer_then_check: on a consistent graph with any subset of erasable annotations erased, inference returns normally, every child reachable from an Input carries exactly the truth and the type check passes; DFS completeness of the work-list on every graph; model pinned by inference correspondence on random consistent graphs with erasure subsets.",
              note="", ref="6 C08"),
  "C09": dict(tech="Coq proof (check_types = Ok true <-> every edge consistent; never Ok false) + correspondence + direct oracle",
              text="Theorem: soundness and completeness of the per-edge check by induction over the edge list, permutation invariance; model pinned on graphs with assigned defined/undefined types.",
              note="single-port leaf graphs as in the property", ref="6 C09"),
- "C10": dict(tech="Coq proof (termination by lexicographic measure; frame lemmas) + correspondence + snapshot oracle with wall-clock guard",
-             text="Theorems: the work-list loop terminates on every multigraph (some fuel always suffices); only types and an undefined Conv input_shape change; names/kinds/edges/metadata/order preserved.",
+ "C10": dict(tech="Coq proof (termination with a concrete quadratic fuel bound; frame, untouched and idempotence theorems) + correspondence + snapshot oracle with wall-clock guard",
+             text="Theorems: the work-list loop terminates on every multigraph within the concrete fuel the model runs with; only annotations change; names/kinds/edges/metadata/order preserved; a child unreachable from every Input is left exactly as it was; a second run changes nothing (two proved forms bracketing a container-only counterexample kept in the development).",
              note="CPython wall-clock and array bytes observed by harness only", ref="6 C10"),
  "C11": dict(tech="Coq proof (from_list = path graph, naming scheme, NoDup names) + correspondence + direct oracle",
              text="Theorems about the model of from_list: node order and identity positions, naming scheme with counters, chain edges; class-name side conditions checked on the regenerated table.",
@@ -47,11 +47,11 @@ P = {
  "C12": dict(tech="Coq proof (mirror invariant preserved by every operation) + correspondence over operation histories + scan oracle",
              text="Theorem: graph-level types mirror the Input/Output children after construction and after infer_types (also when it raises), by induction over operation lists.",
              note="", ref="6 C12"),
- "C13": dict(tech="Coq proof (from_dict . to_dict round trip; fresh-allocation/no-alias in tagged model) + alias-matrix oracle",
-             text="Theorems: dictionary round trip returns an equivalent node with identical value types; every mutable object in the dictionary is freshly allocated.",
+ "C13": dict(tech="Coq proof (from_dict . to_dict round trip for graphs of any depth; keys = documented fields) + alias-matrix / mutate-and-compare oracle on the code",
+             text="Theorem c13_round_trip: from_dict(to_dict n) is the same node with identical value types at every depth; second round trip is the identity; keys are the documented fields plus type. Independence (no shared mutable state) is not expressible in an immutable Gallina model and is decided on the code by the alias matrix.",
              note="aliasing proved on the tagged model; code tied behaviourally", ref="6 C13"),
- "C14": dict(tech="Coq proof (inference respects numeric equivalence introduced by serialisation) + interleaving correspondence",
-             text="Theorem: inference depends only on numeric views, which round trips preserve, hence commutes with them; all interleavings up to length 4 run on the code.",
+ "C14": dict(tech="Coq proof (inference respects the relation serialisation introduces; commutes with file and dictionary round trips) + interleaving correspondence",
+             text="Theorems c14_infer_commutes_with_file / _with_dict / c14_infer_respects_relation: inference on the graph read back (or rebuilt from its dictionary) is related child by child to inference on the original and the type check gives the same verdict; Conv1d/Conv2d regain their types from the fields inference left behind; all interleavings up to length 4 run on the code.",
              note="", ref="6 C14"),
  "C15": dict(tech="Coq proof (last-writer-wins over filesystem model) + real-filesystem history oracle (fd/sha/rename)",
              text="Theorem: in the path->tree model every read returns the last written graph for any history; truncation/handle hygiene are OS/libhdf5 behaviour observed by the harness.",
@@ -59,8 +59,8 @@ P = {
  "C16": dict(tech="Coq proof (metadata round trip; write commutes with stripping metadata; types ignore metadata) + tree-diff oracle",
              text="Theorems: metadata trees are carried by write/read; everything outside */metadata is independent of metadata; constructors, check and inference ignore it.",
              note="", ref="6 C16"),
- "C17": dict(tech="Coq proof (observers are pure functions of the model state) + deep-snapshot oracle incl. failing observers",
-             text="Theorem: observers return the graph unchanged in the model (pure functions; failing paths included); code tied by deep snapshots (bytes, ids, order) around each observer.",
+ "C17": dict(tech="Coq proof (observers read only types / dictionary; filters return sub-lists) + deep-snapshot oracle incl. failing observers",
+             text="Theorems: the observers of the model depend only on what they should read (types only, dictionary only, never the cache) and return sub-lists; mutation is not expressible in an immutable model, so the frame condition on the code is decided by deep snapshots (bytes, node ids, order) around each observer, failing paths included.",
              note="frame condition of CPython code tied behaviourally", ref="6 C17"),
  "C18": dict(tech="Coq proof (closed world over regenerated whitelist table; strict field binding) + type-string/field mutation sweep",
              text="Theorems: dict2node succeeds only for whitelisted names bound to their own dataclass (checked by computation on the table regenerated from the source); unknown keys and missing mandatory fields raise.",
@@ -68,8 +68,8 @@ P = {
  "C19": dict(tech="Coq proof (constructor accepts iff well-formed) + exhaustive small-shape correspondence + broadcast oracle",
              text="Theorems: neuron constructors succeed iff all parameter shapes are equal (CubaLIF: and w_in broadcasts to it), Affine/Linear iff rank>=2, padding strings iff same/valid; errors build nothing.",
              note="", ref="6 C19"),
- "C20": dict(tech="Coq proof over R (Reals/Coquelicot) of formulas TRANSLATED from the Python AST + numeric metamorphic oracle",
-             text="Theorems about the translated closed forms: zero step, semigroup, ODE solution, limit, spike time = first threshold crossing; CubaLIF step = explicit Euler; event-loop record independence step.",
+ "C20": dict(tech="Coq proof over R (Reals/Coquelicot) of formulas TRANSLATED from the Python AST + generic event-loop model (Q, exact correspondence with the real loop) + numeric metamorphic oracle",
+             text="Theorems about the translated closed forms: zero step, semigroup, ODE solution, limit, spike time = first threshold crossing, CubaLIF step = explicit Euler; loop-level theorems: spike times and recorded voltages of the event loop do not depend on the recording interval for any neuron satisfying the three flow laws.",
              note="floating-point rounding not modelled; real-number axioms of the stdlib", ref="6 C20"),
 }
 
@@ -87,7 +87,7 @@ def main():
                 "evidence_file": f"/verif/evidence/{pid}.json",
                 "replay_cmd_template": f"./check {pid} --replay {{path}}",
                 "engine": "coq-model+correspondence",
-                "level_claimed": {"category": "proof", "text": info["text"], "design_ref": "DESIGN.md section " + info["ref"]},
+                "level_claimed": {"category": "proof", "text": info["text"], "design_ref": "DESIGN.md section 11.4 (status as built) and section " + info["ref"]},
                 "level_note": COMMON_NOTE + info["note"],
                 "technique": info["tech"],
             })
